@@ -27,7 +27,7 @@ Lemma build_sim body (l0 : lam) :
   exists l', agree 3 l0 l' /\
     (l0 0 = true -> l0 1 = true -> forall b, reach (edges g) b -> l' b = true) /\
     (forall b, b <> 1 -> b < next g -> l' b = true -> reach (edges g) b) /\
-    (forall k e b, placed g k e b -> b < next g /\ (k = 0 \/ (In (k, l' b) (fn_marks body) /\ In (k, e) (spans_block body)))) /\
+    (forall k e b, placed g k e b -> b < next g /\ ((k = 0 /\ e = 0) \/ (In (k, l' b) (fn_marks body) /\ In (k, e) (spans_block body)))) /\
     (forall k m, In (k, m) (fn_marks body) -> In k (elif_block body) \/ exists e b, placed g k e b /\ l' b = m).
 Proof.
   intros Hlok H2 g.
@@ -95,8 +95,8 @@ Proof.
     destruct (N.eq_dec b 1) as [->|Hb1].
     + (* the exit block: use the labelling in which EXIT is dead *)
       destruct (build_sim body (fun b => negb (N.eqb b 1)) Hlok eq_refl) as (l2 & A2 & _ & _ & Da2 & _). fold g in Da2.
-      destruct (Da2 k e 1 Hp) as (_ & [Hk|(Hm & _)]); [contradiction|]. rewrite (A2 1) in Hm by lia. exact Hm.
-    + destruct (Da k e b Hp) as (Hlt & [Hk|(Hm & _)]); [contradiction|].
+      destruct (Da2 k e 1 Hp) as (_ & [(Hk & _)|(Hm & _)]); [contradiction|]. rewrite (A2 1) in Hm by lia. exact Hm.
+    + destruct (Da k e b Hp) as (Hlt & [(Hk & _)|(Hm & _)]); [contradiction|].
       destruct (l' b) eqn:El; [exfalso; apply Hr; apply Co; assumption|exact Hm].
   - apply in_dead_ids in Hk. destruct (Db k false Hk) as [He|(e & b & Hp & Hm)].
     + apply orb_true_iff. right. apply mem_In. exact He.
